@@ -206,3 +206,14 @@ func short(s string, n int) string {
 	}
 	return s
 }
+
+// Normalised reports whether the program was analysed with the normalising transforms; when it was not (fallback after
+// a failure of the normaliser, or XVC_NO_NORMALISE), a rule that can only be stated on the normalised form records that
+// it was not decided in this run (visible in the evidence) instead of raising an alarm on the un-normalised shape.
+func (c *Ctx) Normalised(rule, fn, what string) bool {
+	if len(c.P.Notes) == 0 {
+		return true
+	}
+	c.OK(rule, fn, what, "-", "NOT DECIDED in this run: analysed without the normalising transforms (see notes)")
+	return false
+}
